@@ -12,6 +12,40 @@ RULES = {
  "C02": "kernel = (/ | % | quotient(), Lhs rep/exponent, Rhs rep/exponent, radix) from the frozen universe. ",
  "C03": "kernel = (comparison operator, Lhs rep/exponent, Rhs rep/exponent, radix, plain-integer flag) from the frozen universe, plus the elastic_integer/elastic_scaled_integer and wide_integer comparison kernels. ",
 }
+
+
+def _sw(d, n, e):
+    return "cnl::scaled_integer<cnl::wide_integer<%d,%s>,cnl::power<%d>>" % (d, n, e)
+
+
+def _se(d, n, e):
+    return "cnl::scaled_integer<cnl::elastic_integer<%d,%s>,cnl::power<%d>>" % (d, n, e)
+
+
+W8 = "cnl::wide_integer<7,signed char>"
+BIGS = {
+ "C01": BIG,
+ # division / remainder / quotient() over multi-limb representations (Knuth division with 8/16/32/64-bit limbs; signed digit counts that are
+ # whole multiples of the limb width; dividends constructed as q*v+r)
+ "C02": [("big scaled<wide<192,u8>,-16> [/%]", _sw(192, "unsigned char", -16), _sw(192, "unsigned char", -16), "/%", 0),
+         ("big scaled<wide<191,i32>,-16> scaled<wide<191,i32>,-3> [/%]", _sw(191, "int", -16), _sw(191, "int", -3), "/%", 0),
+         ("big scaled<wide<192,i32>,-8> scaled<wide<192,i32>,-2> [/%]", _sw(192, "int", -8), _sw(192, "int", -2), "/%", 0),
+         ("big scaled<wide<160,i32>,0> [/%]", _sw(160, "int", 0), _sw(160, "int", 0), "/%", 0),
+         ("big scaled<wide<300,i64>,-40> scaled<wide<300,i64>,5> [/%]", _sw(300, "std::int64_t", -40), _sw(300, "std::int64_t", 5), "/%", 0),
+         ("big scaled<wide<1087,i8>,-10> [/%]", _sw(1087, "signed char", -10), _sw(1087, "signed char", -10), "/%", 0),
+         ("big quotient scaled<wide<96,i32>,-10> scaled<wide<96,i32>,-3>", _sw(96, "int", -10), _sw(96, "int", -3), "q", 0),
+         ("big quotient scaled<wide<100,u32>,-50> scaled<wide<100,u32>,-20>", _sw(100, "unsigned", -50), _sw(100, "unsigned", -20), "q", 0),
+         ("big quotient scaled<wide<65,i32>,0> scaled<wide<63,i32>,-30>", _sw(65, "int", 0), _sw(63, "int", -30), "q", 0),
+         ("big quotient escaled<200,w8,-20> escaled<150,w8,-3>", _se(200, W8, -20), _se(150, W8, -3), "q/%", 0)],
+ # comparisons of multi-limb scaled values across large exponent gaps (the alignment multiplies / shifts by more than one limb)
+ "C03": [("big scaled<wide<255,i64>,-200> scaled<wide<255,i64>,0> [<=]", _sw(255, "std::int64_t", -200), _sw(255, "std::int64_t", 0), "<=", 0),
+         ("big scaled<wide<255,i64>,3> scaled<wide<255,i64>,-247> [<=]", _sw(255, "std::int64_t", 3), _sw(255, "std::int64_t", -247), "<=", 0),
+         ("big scaled<wide<1087,i8>,-300> scaled<wide<1087,i8>,40> [<=]", _sw(1087, "signed char", -300), _sw(1087, "signed char", 40), "<=", 0),
+         ("big scaled<wide<200,u32>,-100> scaled<wide<200,u32>,-1> [<=]", _sw(200, "unsigned", -100), _sw(200, "unsigned", -1), "<=", 0),
+         ("big escaled<600,w8,-300> escaled<500,w8,20> [<=]", _se(600, W8, -300), _se(500, W8, 20), "<=", 0),
+         ("big wide<4351,i32> [<=]", "cnl::wide_integer<4351,int>", "cnl::wide_integer<4351,int>", "<=", 0)],
+}
+
 COMMON_RULE = ("Operands: all values for reps of <= 8 bits, otherwise the boundary lattice (0,+-1..3, limits+-3, +-2^k(+-1), narrower-type bounds, 5,7,10,100,1000) squared plus seeded random values. "
                "The oracle evaluates rep*radix^exponent exactly on 256-bit integers; the result's exponent and radix are read from the actual result type. Domain for built-in reps: exponent-aligned operands fit the "
                "promoted operand types and the exact result rep fits decltype(P(L) op P(R)) (computed on plain integers); elastic reps: unrestricted. distinct_nontrivial counts lattice/enumerated pairs with an operand "
@@ -35,8 +69,8 @@ def run_prop(prop, tier, seed, only=None, extra_jobs=None):
             jobs.append(core.Job("%s-%d" % (prop.lower(), i), core.tu("c01.h", sh), cfg, env=env, timeout=3600))
     if extra_jobs and not only:
         jobs += extra_jobs(tier, seed, env)
-    if prop == "C01":
-        jobs += big.make_jobs("c01", BIG, tier, seed, cfgs, only)
+    if prop in BIGS:
+        jobs += big.make_jobs(prop.lower(), BIGS[prop], tier, seed, cfgs, only)
     core.build_and_run(jobs, prop)
     for j in jobs:
         res.absorb(j)
